@@ -637,6 +637,8 @@ META["explanation"] += " " + "Also (rounds 10-11): the parent clears exactly PAU
 
 META["explanation"] += " " + 'Also (round 12): the per-CPU helper array and its length word are reset together in the child.'
 
+META["explanation"] += " " + 'Also (round 13): PAUSE is set before the helper / worker is woken (call_rcu_before_fork, urcu_workqueue_pause_worker), with a full barrier in between; only the RT-flag edge may skip the wake-up.'
+
 RULES = [
     ("C16.handoff", rule_handoff),
     ("C16.handoff", rule_bp_handoff),
